@@ -10,8 +10,12 @@ SPEC = {
     "level_text": (
         "Partial, with the full statement refuted by witnesses. Full statement (a package renders the same globals "
         "alone, after another package, and after later packages ran) is refuted on the multi-file asp model by three "
-        "machine-checked witnesses, one per root cause, each a listed known finding. Proved for all inputs: every "
-        "writing primitive (index assignment, the in-place sorted/reversed) refuses a frozen wrapper; a Freeze that "
+        "machine-checked witnesses, one per root cause, each a listed known finding. Proved for all inputs: everything "
+        "scope.Freeze leaves in a subincluded scope is a frozen wrapper at the top level (C17_exports_frozen, any facts, "
+        "any heap); every writing primitive (index assignment; sorted/reversed) refuses a frozen wrapper; + on a list "
+        "without spare capacity only extends the heap (C17_add_exact_cap_never_writes); today's Freeze is complete for "
+        "flat lists without spare capacity (C17_freeze_today_flat); setdefault on an imported dict is refused (one "
+        "decided sample); a Freeze that "
         "wraps the frozen copy (the one-line fix) returns values frozen at every level, without spare capacity, in "
         "fresh heap cells (by mutual induction over freeze / freezeList / freezeKvs), while today's Freeze already "
         "fails that for [[1, 2]]. No whole-program frame theorem: that packages cannot reach unfrozen shared cells "
